@@ -41,7 +41,7 @@ func runHiveFindNode(e *env, c *Case) Obs {
 	var chunks [][]byte
 	if c.Kind == "raw" {
 		for _, h := range c.Raw {
-			chunks = append(chunks, unhex(h))
+			chunks = append(chunks, rawBytes(h))
 		}
 	} else {
 		var m fnMsg
@@ -66,7 +66,7 @@ func runHivePeers(e *env, c *Case) Obs {
 	var m *hvMsg
 	if c.Kind == "raw" {
 		for _, h := range c.Raw {
-			chunks = append(chunks, unhex(h))
+			chunks = append(chunks, rawBytes(h))
 		}
 	} else {
 		m = &hvMsg{}
